@@ -3,8 +3,8 @@ import re
 from runner import Stream
 import vlib, gens
 
-PROP_MODULES = ["Vlsp.Props.C02", "Vlsp.Props.C02Gha", "Vlsp.Props.C02Go", "Vlsp.Props.C02Pypi"]
-EXTRA_SCAN = ["Vlsp/Spec/Ranges.lean"]
+PROP_MODULES = ["Vlsp.Props.C02", "Vlsp.Props.C02Ast", "Vlsp.Props.C02Gha", "Vlsp.Props.C02Go", "Vlsp.Props.C02Pypi"]
+EXTRA_SCAN = ["Vlsp/Spec/Ranges.lean", "Vlsp/Spec/NpmDenote.lean", "Vlsp/Lemmas/PreFloor.lean"]
 RULE = ("(a) semver parse/Ord lattice; (b) per ecosystem: specs from the range grammar (all operators, 1-3 component "
         "operands, wildcards, hyphen, AND/OR, layout) + junk stream, against the version lattice (components {0,1,2,10}, "
         "prereleases, build); each (spec, version) is run through version_exists and compare_to_latest, compared with "
@@ -14,9 +14,17 @@ RULE = ("(a) semver parse/Ord lattice; (b) per ecosystem: specs from the range g
 ASSUMPTIONS = ["pep440_rs/pep508_rs are parameters of the PyPI model (see C02 level_note)",
                "reference semantics: Spec/Ranges.lean, cross-validated against node-semver and the semver crate when present"]
 
+AST_COUNT = {}      # how the npm spec texts of this run were read (same / diff / build / bothinvalid / code-only / ref-only)
+
 ECOS = [("npm", gens.npm_spec), ("pnpm", gens.npm_spec), ("jsr", gens.npm_spec), ("crates", gens.crates_spec),
         ("go", gens.go_version), ("gha", gens.gha_ref)]
 VALID_L = {"npm": "1.0.0", "pnpm": "1.0.0", "jsr": "1.0.0", "crates": "1.0.0", "go": "v1.0.0", "gha": "v1.0.0"}
+
+
+def evidence_notes():
+    return {"npm_spec_texts_by_reading": dict(AST_COUNT),
+            "meaning": "'same' = the code's parser (model) and the reference parser read the spec text as the same range: for these texts "
+                       "c02_npm_same_reading makes the verdict equality a theorem for EVERY build-free strict candidate version"}
 
 
 def finding_class(eco, spec, v, impl, ref, frag):
@@ -100,6 +108,7 @@ def streams(ctx):
 
         def derive(cs, impl, metas=metas):
             der = []
+            seen_ast = set()
             for (i, eco, s, v) in metas:
                 ex, cmpv = impl[i], impl[i + 1]
                 iv = "invalid" if cmpv == "invalid" else ex
@@ -118,6 +127,18 @@ def streams(ctx):
                     return ("violation", f"{eco}: spec {s!r} version {v!r}: implementation says {iv}, the ecosystem's semantics say {ref}")
                 der.append({"req": vlib.line("spec.judge", eco, s, v), "check": check,
                             "history": [cs[i]["req"], cs[i + 1]["req"]], "index": i})
+                if eco == "npm" and s not in seen_ast:
+                    # the premise of c02_npm_same_reading, evaluated on this spec text: inside the fragment the code's parser (model)
+                    # and the reference parser must read it as the SAME range; the theorem then covers every candidate version
+                    seen_ast.add(s)
+
+                    def check_ast(o, s=s):
+                        reading, frag = o.split(" ")
+                        AST_COUNT[reading] = AST_COUNT.get(reading, 0) + 1
+                        if frag == "T" and "+" not in s and reading != "same":
+                            return ("model", f"npm spec {s!r} is in the fragment but the code's parser and the reference parser read it differently ({reading})")
+                        return None
+                    der.append({"req": vlib.line("c02.ast", s), "check": check_ast, "history": [cs[i]["req"]], "index": i})
             return der
         out.append(Stream(f"match-{eco}", cases, nontrivial=lambda c, o: o in ("T", "F", "latest", "outdated", "newer") and c.get("tag") is not None,
                           derive=derive))
